@@ -69,6 +69,23 @@ func (c16) Gen(tier string, seed int64, emit func([]Ev)) {
 	}
 	c16IsSynced(r, emit)
 	c16Boundary(r, tier == "thorough", emit)
+	// the header far away: offsets beyond what 16 bits can count (a few rejected candidates on the way)
+	fars := []int{65535, 65536, 65537, 70001}
+	if tier == "thorough" {
+		fars = append(fars, 131071, 131072, 131073, 200000, 65534, 65540)
+	}
+	for k, g := range fars {
+		st := bytes.Repeat([]byte{[]byte{0xff, 0x00, 0x48}[k%3]}, g)
+		for q := 0; q < 20; q++ {
+			copy(st[r.Intn(g-8):], []byte{0x47, 0x00, 0x05, 0x10})
+		}
+		for q := g - 4; q < g; q++ {
+			st[q] = 0x46
+		}
+		st = append(st, 0x47, 0x01, 0x00, 0x10|byte(r.Intn(16)))
+		st = append(st, bytes.Repeat([]byte{0x48}, 184+r.Intn(190))...)
+		emit([]Ev{{"op": "sync", "stream": B(st), "reader": []string{"bufio4096", "slice", "bufio:752", "bufio16"}[k%4]}})
+	}
 	if tier == "thorough" {
 		c16Structured(r, 3000, emit)
 	} else {
